@@ -129,7 +129,7 @@ Record Inv (c : cfg) (s : state) : Prop := mkInv {
 (* ---- preservation ---------------------------------------------------------------------------- *)
 Ltac unf := unfold new_work, set_queue, set_qstop, set_store, set_refs, set_closed, set_idle, set_exited,
   set_holding, set_cflush, set_current, set_workers, set_works, set_timer, set_bclosed, set_rstop, set_pc,
-  set_accepted, set_accpre, set_late, set_taken, set_begun, set_ended, set_finished, set_failures, set_postb, set_failedids in *.
+  set_accepted, set_accpre, set_late, set_taken, set_begun, set_ended, set_finished, set_failures, set_postb, set_failedids, set_shuterr in *.
 
 Ltac destr_step H :=
   repeat (match type of H with
@@ -162,7 +162,7 @@ Ltac rw_eqs := repeat match goal with
 Ltac unm2 := unfold inflight, inflight_len, tmb, pcb, wall, wstarted, wincall, wback, wbacki, wcons, wfly, wlen, fin1,
   set_st, end_state, started, incall, backoff in *; unfold cnt in *.
 
-Ltac proj := cbn [queue qstop store refs closed idle exited holding cflush current workers works timer bclosed rstop pc accepted accpre late taken begun ended finished failures postb failedids set_queue set_qstop set_store set_refs set_closed set_idle set_exited set_holding set_cflush set_current set_workers set_works set_timer set_bclosed set_rstop set_pc set_accepted set_accpre set_late set_taken set_begun set_ended set_finished set_failures set_postb set_failedids new_work] in *.
+Ltac proj := cbn [queue qstop store refs closed idle exited holding cflush current workers works timer bclosed rstop pc accepted accpre late taken begun ended finished failures postb failedids shuterr set_queue set_qstop set_store set_refs set_closed set_idle set_exited set_holding set_cflush set_current set_workers set_works set_timer set_bclosed set_rstop set_pc set_accepted set_accpre set_late set_taken set_begun set_ended set_finished set_failures set_postb set_failedids set_shuterr new_work] in *.
 Ltac arith :=
   rewrite ?sumf_app, ?sumf_fin_map in *; unm2; proj; rw_eqs; cbn [sumf length] in *; splits;
   do 3 (rewrite ?sumf_app, ?app_length in *; cbn [sumf length w_ids w_st w_cons fst snd] in * ); rw_eqs;
